@@ -92,19 +92,17 @@ def roStats (d : CDesc) : Nat × Int := roStatsAux d 0 0 true
 
 def maxInt : Int := 9223372036854775807
 
-/-- sizes whose `float64` conversion rounds up to 2^63 (spacing 1024 there, ties to even). -/
-def nearMaxInt (size : Int) : Bool := decide (size ≥ maxInt - 511) && size != maxInt
-
-/-- `ShuffleShardExpectedInstancesPerZone`: `int(math.Ceil(float64(size) / float64(zones)))`, modelled
-with integer ceil (the float64 version agrees below 2^53 and is ≥ 2^51 above, far beyond any ring),
-except where the Go conversion overflows: for one zone and `size ∈ [MaxInt-511, MaxInt-1]` the
-quotient is 2^63 and `int(2^63)` is MinInt64 on amd64 (the Go spec leaves it implementation
-dependent); the code only special-cases `size == MaxInt`. -/
+/-- `ShuffleShardExpectedInstancesPerZone`: `MaxInt` stays `MaxInt`; with at least one zone the integer
+ceiling `size / zones (+1 if size % zones > 0)` (since fix 90273d3; before, the float64 quotient
+overflowed for one zone and `size ∈ [MaxInt-511, MaxInt-1]` and the shard came out empty — finding
+F-C12-2). With no zone at all the Go code still returns `int(+Inf)`, which is never used (there is no
+zone to iterate); the model returns 0 there. `size > 0` at every call site. -/
 def expectedPerZone (size : Int) (zones : Nat) : Int :=
   if size == maxInt then maxInt
   else if zones == 0 then 0
-  else if zones == 1 && nearMaxInt size then -9223372036854775808
-  else ((size.toNat + zones - 1) / zones : Nat)
+  else
+    let q := size.toNat / zones
+    ((if size.toNat % zones > 0 then q + 1 else q : Nat) : Int)
 
 /-- `searchToken`: index of the first token > key, wrapping to 0 (binary search + found → i+1). -/
 def searchToken {α : Type} (toks : List (Nat × α)) (key : Nat) : Nat :=
